@@ -13,6 +13,7 @@ static void init(const sk_opts* o)
 	else if (!strcmp(v, "bakesweep")) which = 5;
 	else if (!strcmp(v, "bakebase")) which = 6;
 	else if (!strcmp(v, "bakediff")) which = 7;
+	else if (!strcmp(v, "bakeadv")) which = 8;
 	else which = 0;
 }
 
@@ -27,6 +28,7 @@ static void run(uint64_t seed, const sk_mask* mask, sk_result* out)
 	case 5: run_bake_sweep(seed, mask, out); break;
 	case 6: run_bake_base(seed, mask, out); break;
 	case 7: run_bake_diff(seed, mask, out); break;
+	case 8: run_bake_adv(seed, mask, out); break;
 	default: run_pki(seed, mask, out); break;
 	}
 }
